@@ -2,7 +2,7 @@
 import os
 
 from . import core
-from .rules import stdio, cert, mark, exact, optstore, inval, idx, atomic, own, tokens, idxclass, copy, pair, structfree, buf, div, counter, sentinel, appendinit, verdict, basismap, zerotol, escape, lenclass, djsym, ndet, useb4check, norms, opencheck, shell, esolver, errlost, rescan, certdep, neverset, fmt, defaults, scratch, fullscan, slotleak, floatidx, sensemap, trunc, vtypezero, allockind, intdiv, strscan, localfield, rawidx, argcap, staleptr, condalloc, lpstate, vstattype, alphabet, outleak, fieldleak, lenm1, basisdim, dupmark, rowcopy
+from .rules import stdio, cert, mark, exact, optstore, inval, idx, atomic, own, tokens, idxclass, copy, pair, structfree, buf, div, counter, sentinel, appendinit, verdict, basismap, zerotol, escape, lenclass, djsym, ndet, useb4check, norms, opencheck, shell, esolver, errlost, rescan, certdep, neverset, fmt, defaults, scratch, fullscan, slotleak, floatidx, sensemap, trunc, vtypezero, allockind, intdiv, strscan, localfield, rawidx, argcap, staleptr, condalloc, lpstate, vstattype, alphabet, outleak, fieldleak, lenm1, basisdim, dupmark, rowcopy, normlen
 from .effects import Effects
 
 FIX = os.path.join(os.path.dirname(os.path.abspath(__file__)), "fixtures")
@@ -198,6 +198,7 @@ def c05_rules():
         lambda prog, tier: inval.run_skipgate(prog),
         lambda prog, tier: vstattype.run(prog),
         lambda prog, tier: rowcopy.run(prog, shared_eff(prog)),
+        lambda prog, tier: normlen.run(prog),
         lambda prog, tier: vtypezero.run(prog),
         lambda prog, tier: escape.run_extcopy(prog),
     ]
@@ -542,7 +543,7 @@ PROPS = {
                   lambda prog, tier: argcap.run(prog, floor=40),
                   lambda prog, tier: staleptr.run(prog, shared_eff(prog)),
                   lambda prog, tier: condalloc.run(prog),
-                  lambda prog, tier: lpstate.run(prog), lambda prog, tier: lpstate.run_internal(prog), lambda prog, tier: lenm1.run(prog), lambda prog, tier: basisdim.run(prog),
+                  lambda prog, tier: lpstate.run(prog), lambda prog, tier: lpstate.run_internal(prog), lambda prog, tier: lenm1.run(prog), lambda prog, tier: basisdim.run(prog), lambda prog, tier: normlen.run(prog),
                   lambda prog, tier: neverset.run(prog),
                   lambda prog, tier: fmt.run(prog),
                   lambda prog, tier: floatidx.run(prog),
@@ -673,7 +674,8 @@ _ADD = {
                            "only after a pass that sets each of them from the variable's type (a bound made infinite since the last solve, or a "
                            "caller's status letter that does not fit the bounds, cannot enter the computation); (R-ROWCOPY) every library function that "
                            "stores into the arrays of the column matrix has tested-and-released the cached row copy rA on a dominating position "
-                           "(mutators computed from effect summaries)."},
+                           "(mutators computed from effect summaries); (R-NORMLEN) every relative change of a basis record's row / structural count is "
+                           "accompanied on every path by code that deals with the corresponding norm array."},
     "C07": {"technique": "; computed simplex-state fields of lpinfo + unguarded-read summaries + dominance of the API hand-over by the factorok test; "
                          "alphabet discovery + dominating-validator check for caller-supplied selector letters",
             "explanation": " (R-LPSTATE) the index-taking calls that work on the simplex data of the problem (tableau rows, pivot-in lists, basis "
